@@ -1009,6 +1009,16 @@ func (g *formatsG) genNumbers(p formatsPlan) {
 		}
 		g.list("unique", "", shape+g.oneOf("float32", "float64"), "float", fs, "list")
 	}
+	// floats whose rendering and whose == disagree: two NaN render alike (duplicates), 0 and -0 render differently
+	// (distinct), the infinities render with their sign
+	for _, ft := range []string{"float32", "float64"} {
+		g.list("unique", "", "[]"+ft, "float", []string{"NaN", "1", "NaN"}, "list")
+		g.list("unique", "", "[]"+ft, "float", []string{"1", "NaN", "2"}, "list")
+		g.list("unique", "", "[]"+ft, "float", []string{"0", "-0", "3"}, "list")
+		g.list("unique", "", "[]"+ft, "float", []string{"-0", "3", "-0"}, "list")
+		g.list("unique", "", "[]"+ft, "float", []string{"+Inf", "-Inf", "1"}, "list")
+		g.list("unique", "", "[]"+ft, "float", []string{"+Inf", "1", "+Inf"}, "list")
+	}
 }
 
 // ---- in / include / prefix / suffix
